@@ -197,7 +197,7 @@ theorem link_send (me : Nat) (s s' : St) (t m : Nat) (h : LinkOk me s) (haux : G
 theorem link_create (me cap : Nat) (s s' : St) (h : LinkOk me s)
     (hn : s'.reg.nextSid = s.reg.nextSid + 1) (hst : s'.reg.started = s.reg.started) (hd : s'.reg.disp = s.reg.disp)
     (hx : (s'.sub, s'.snd) = if s.reg.nextSid = me then
-            (match s.sub with | none => (some (GcSub.init cap), s.snd) | some _ => (s.sub, s.snd))
+            (match s.sub with | none => (some (createSt cap s.reg), s.snd) | some _ => (s.sub, s.snd))
           else (s.sub, s.snd)) : LinkOk me s' := by
   have hsent : GcReg.sentTo s'.reg me = GcReg.sentTo s.reg me := by simp [GcReg.sentTo, hst]
   by_cases hme : s.reg.nextSid = me
@@ -212,7 +212,7 @@ theorem link_create (me cap : Nat) (s s' : St) (h : LinkOk me s)
     constructor
     · rw [hn, hx1]; simp; omega
     · intro q' hq'; rw [hx1] at hq'; injection hq' with hq'; subst hq'
-      rw [hx2, hempty]; simp [GcSub.init]
+      rw [hx2, hempty]; simp [createSt, GcSub.init]
     · rw [hx2, hsent]; exact h.msgs
     · intro q' _ d m p hm; rw [hx2, hempty] at hm; cases hm
     · intro d m p hm; rw [hx2, hempty] at hm; cases hm
